@@ -13,7 +13,7 @@
   record is identified by (tid, oid), a back pointer is the tid of the transaction holding the
   record it points to (what the storage iterator reports as `data_txn`).  File offsets, `prev`
   pointers and byte layout are not modelled (C04/C01 do that); sizes are, as far as the packer's
-  own decisions depend on them (`ipos == opos`, `assert tlen == th.tlen`).
+  own decisions depend on them (`ipos == opos`).
 -/
 import ZodbModel.Basic
 import ZodbModel.Reach
@@ -116,8 +116,6 @@ def histSize (h : History) : Nat := (h.map Txn.size).sum
 
 inductive PackErr where
   | keyError      -- dangling reference met by findReachableAtPacktime
-  | packError     -- PackCopier._txn_find: "Invalid backpointer transaction id"
-  | assertion     -- copyOne: `assert tlen == th.tlen`
   | valueError    -- MappingStorage: "Already packed to a later time"
   | fuel          -- never (see `Proofs.Pack.mark_ne_fuel`)
 deriving DecidableEq, Repr
@@ -241,13 +239,13 @@ def copyPre (keep : Tid → Oid → Bool) (pre : History) : History := pre.filte
 
 /-- `PackCopier.copy` for one record of a transaction after the pack time: the back pointer is
     re-derived by looking the transaction id up in the *output* (`_txn_find`) and the oid in that
-    transaction (`_data_find`); when that fails the data is written in full. -/
+    transaction (`_data_find`); when either fails the data is written in full. -/
 def copyRec (out : History) (r : Rec) : Except PackErr Rec :=
   match r.back with
   | none => .ok r
   | some bt =>
     match out.find? (fun t' => t'.tid == bt) with
-    | none => .error .packError
+    | none => .ok { r with back := none }      -- `except PackError: prev_txn_pos = 0` (whole txn packed away)
     | some t' =>
       match t'.recOf r.oid with
       | none => .ok { r with back := none }
@@ -267,13 +265,12 @@ def copyRecs (out : History) : List Rec → Except PackErr (List Rec)
       | .error e => .error e
       | .ok rest' => .ok (r' :: rest')
 
-/-- `copyOne` -/
+/-- `copyOne` (a transaction whose length changed because a back pointer was replaced by the data
+    gets its header length patched — no failure) -/
 def copyTxn (out : History) (t : Txn) : Except PackErr Txn :=
   match copyRecs out t.recs with
   | .error e => .error e
-  | .ok rs =>
-    let t' : Txn := { t with recs := rs }
-    if t'.size != t.size then .error .assertion else .ok t'
+  | .ok rs => .ok { t with recs := rs }
 
 /-- `copyRest` -/
 def copyRest (out : History) : History → Except PackErr History
